@@ -1,0 +1,34 @@
+//! Hooks for out-of-tree verification harnesses.
+//!
+//! Only compiled with the `verif-hooks` cargo feature; nothing here is used
+//! by the engine itself unless that feature is enabled.
+
+use std::cell::Cell;
+
+thread_local! {
+    static CONTAINS_ANCHOR: Cell<Option<usize>> = const { Cell::new(None) };
+}
+
+/// Overrides, for the current thread, the anchor position that the SIMD
+/// `contains` searcher would otherwise pick at random when a filter is
+/// compiled. `None` restores the random choice.
+pub fn set_contains_anchor(position: Option<usize>) {
+    CONTAINS_ANCHOR.with(|c| c.set(position));
+}
+
+pub(crate) fn contains_anchor(needle_len: usize) -> Option<usize> {
+    CONTAINS_ANCHOR
+        .with(|c| c.get())
+        .filter(|position| *position >= 1 && *position < needle_len)
+}
+
+/// Returns whether the SIMD implementation of `contains` is selected in this
+/// process (latched on first use).
+pub fn simd_contains_active() -> bool {
+    crate::ast::field_expr::verif_simd_contains_active()
+}
+
+/// Returns the current nesting level of `catch_panic` on this thread.
+pub fn panic_catcher_level() -> u64 {
+    crate::panic::verif_panic_catcher_level()
+}
